@@ -490,7 +490,7 @@ func (c *ExprCtx) addLin(l *Lin, v ssa.Value, co int64, depth int) bool {
 	}
 	s := c.Expr(v)
 	l.T[s] += co
-	if strings.HasPrefix(s, "len(") || strings.HasPrefix(s, "cap(") || isUnsigned(v.Type()) {
+	if strings.HasPrefix(s, "len(") || strings.HasPrefix(s, "cap(") || isUnsigned(v.Type()) || nonNegative(v, 0) {
 		l.nn[s] = true
 	}
 	return true
